@@ -678,7 +678,7 @@ func rulePairingComplete(c *Ctx, rule string) {
 		}
 	}
 	if fill == nil {
-		c.und(rule, key, fn.Pos(), "no fill of the complements table found")
+		c.bad(rule, key, fn.Pos(), "NewPairing does not build the complements table at all: a table built later, on first use by ComplementTable, is built by whichever goroutines happen to ask first — alphabets are shared, and a second caller sees the table before it is filled and flagged, so the table form disagrees with the method form")
 		return
 	}
 	// an element-wise fill sits in a loop over the whole table (tablefill): reaching the loop is what counts
